@@ -434,7 +434,7 @@ def run(ctx):
     from vlib import layoutinv
     nrh += layoutinv.replay(ctx, ["solve:exact", "solve:cg", "solve:bicgstab", "solve:gmres"], "solve")
     from vlib import bufferreuse
-    nrh += bufferreuse.replay(ctx, ["linop-instance:solve", "linop-instance:solve-cg", "solve:cg"], "solve")
+    nrh += bufferreuse.replay(ctx, ["linop-instance:solve", "linop-instance:solve-cg", "solve:cg", "linop-instance:solve-EM", "linop-instance:solve-EM-cg", "linop-tensors:solve-EM"], "solve")
     for name, c2, inv in (("Unswap", dict(Unswap=RawTla('[m \\in {"cg", "bicgstab", "gmres", "exactsolve", "custom_exactsolve", "broyden1"} |-> m # "gmres"]')), "RetPlain"),
                           ("ReturnPassed", dict(ReturnPassed=False), "SilentPassed"), ("WarnIffNot", dict(WarnIffNot=False), "WarnedIffNotConverged")):
         c = dict(base)
